@@ -45,8 +45,20 @@ def run_case(case):
                        forms=("nlc", "dict_ineq"), fun_none=0.1,
                        bound_patterns=("free", "lower", "upper", "two",
                                        "fixed", "narrow"))
+    if case["idx"] % 5 == 0:
+        # scaled problems whose solution sits on the bounds (the points
+        # handed to the callback are images of +-1 under the scaling map)
+        spec = gen.general(rng, maxfev=(25, 90), with_callback=True,
+                           opt_allow=("nb_points", "radius"),
+                           forms=("nlc",), con=str(rng.choice(
+                               ["none", "none", "lin", "nl"])),
+                           obj_kinds=("lin", "quad", "lin"),
+                           bound_patterns=("two", "narrow", "two"),
+                           x0_where=str(rng.choice(["on", "inside"])))
+        spec["options"]["scale"] = True
     cb = {"conv": str(rng.choice(["kw", "pos"])),
-          "form": str(rng.choice(["def", "lambda", "object", "partial"]))}
+          "form": str(rng.choice(["def", "lambda", "object", "partial",
+                                  "unhashable"]))}
     if cb["conv"] == "pos" and rng.random() < 0.15:
         cb["form"] = "other_name"
     spec["callback"] = cb
